@@ -356,6 +356,7 @@ def main():
     S.option_probes(run, kinds)
     S.options_stream(run, drv)
     S.pytree_stream(run, drv)
+    S.history_stream(run)
     debug_dump(run)
     run.finish("proof")
 
